@@ -254,6 +254,9 @@ func genRT(t *rapid.T) RTCase {
 		opts.GFX9 = true
 		c.CDNA3 = rapid.IntRange(0, 3).Draw(t, "cdna3") > 0
 	}
+	if f == isaenc.VOP2 && rapid.IntRange(0, 3).Draw(t, "gfx9_sdwa") == 0 {
+		opts.GFX9 = true // SDWA with SGPR sources (S0 / S1)
+	}
 	shape := f
 	if f == isaenc.VOP3a && isaVOP3b(e.Opcode) && rapid.Bool().Draw(t, "isa_shape") {
 		// the ISA lays this opcode out as VOP3b although the decoder's table files it under VOP3a
@@ -417,7 +420,7 @@ func usesUnsupportedModifier(d isaenc.Desc) bool {
 		if d.Format != isaenc.VOP2 {
 			return true
 		}
-		if s.Clamp || s.Omod != 0 || s.Src0Sext || s.Src0Neg || s.Src0Abs || s.Src1Sext || s.Src1Neg || s.Src1Abs || s.S0 || s.S1 {
+		if s.Clamp || s.Omod != 0 || s.Src0Sext || s.Src0Neg || s.Src0Abs || s.Src1Sext || s.Src1Neg || s.Src1Abs {
 			return true
 		}
 	}
@@ -616,6 +619,9 @@ func descFeatures(d isaenc.Desc) (labels []string, hasReg, feature bool) {
 	if d.SDWA != nil {
 		labels = append(labels, "sdwa")
 		feature = true
+		if d.SDWA.S0 || d.SDWA.S1 {
+			labels = append(labels, "sdwa-sgpr-source")
+		}
 	}
 	if d.DPP != nil {
 		labels = append(labels, "dpp")
